@@ -250,8 +250,50 @@ fn subsets_upto<T: Copy>(items: &[T], max: usize) -> Vec<Vec<T>> {
     out
 }
 
-pub fn space(thorough: bool) -> Vec<Prog> {
+/// Entry-parameter structs shared between entry points in every pattern of up to three entries with up to two struct
+/// parameters each over two (vertex) or three (fragment) structs: adjacent and non-adjacent repeats, both orders.
+fn sharing_space() -> Vec<Prog> {
     let mut out = vec![];
+    let structs = ["SharedA", "SharedB", "SharedC"];
+    let decl = "struct SharedA { @location(0) a: vec4<f32> };\nstruct SharedB { @location(1) b: vec2<f32> };\nstruct SharedC { @location(2) c: vec4<f32> };\n";
+    // parameter lists: none, [X], [X, Y] with X != Y
+    let mut lists: Vec<Vec<usize>> = vec![vec![]];
+    for x in 0..3 {
+        lists.push(vec![x]);
+        for y in 0..3 {
+            if x != y {
+                lists.push(vec![x, y]);
+            }
+        }
+    }
+    for stage in ["vertex", "fragment"] {
+        for n in 2..=3usize {
+            for seq in wgslgen::sequences(lists.len(), n) {
+                let used: BTreeSet<usize> = seq.iter().flat_map(|l| lists[*l].iter().copied()).collect();
+                // keep patterns in which some struct is taken by at least two entries
+                let repeats = (0..3).any(|s| seq.iter().filter(|l| lists[**l].contains(&s)).count() >= 2);
+                if !repeats || (n == 3 && used.len() < 2) {
+                    continue;
+                }
+                let mut src = String::from(decl);
+                for (e, l) in seq.iter().enumerate() {
+                    let ps: Vec<String> = lists[*l].iter().enumerate().map(|(i, s)| format!("p{i}: {}", structs[*s])).collect();
+                    if stage == "vertex" {
+                        src.push_str(&format!("@vertex fn vs_{e}({}) -> @builtin(position) vec4<f32> {{\n    return vec4<f32>(0.0);\n}}\n", ps.join(", ")));
+                    } else {
+                        src.push_str(&format!("@fragment fn fs_{e}({}) -> @location(0) vec4<f32> {{\n    return vec4<f32>(0.0);\n}}\n", ps.join(", ")));
+                    }
+                }
+                let expected: BTreeSet<String> = used.iter().map(|s| structs[*s].to_string()).collect();
+                out.push(Prog { key: format!("sharing|{stage}|{:?}", seq.iter().map(|l| lists[*l].clone()).collect::<Vec<_>>()), src, expected, steps: n as u64 });
+            }
+        }
+    }
+    out
+}
+
+pub fn space(thorough: bool) -> Vec<Prog> {
+    let mut out = sharing_space();
     // (1) one struct of every shape with every role subset (full power set)
     for shape in [Shape::Plain, Shape::VertexIn, Shape::Varying, Shape::Located, Shape::ComputeIn] {
         for roles in subsets_upto(shape.roles(), usize::MAX) {
@@ -345,7 +387,18 @@ pub fn space(thorough: bool) -> Vec<Prog> {
 
 pub fn run(tier: &str) -> i32 {
     let mut rep = Report::new("C08", tier);
-    let progs = space(rep.thorough());
+    let mut progs = space(rep.thorough());
+    // module-scope declaration order is not significant: reversed / functions-first variants (every 4th in quick)
+    let n0 = progs.len();
+    for i in 0..n0 {
+        if rep.thorough() || hash64(&progs[i].key) % 4 == 1 {
+            for how in ["reverse", "entries-first"] {
+                if let Some(src) = reorder_decls(&progs[i].src, how) {
+                    progs.push(Prog { key: format!("{}|decl-order={how}", progs[i].key), src, expected: progs[i].expected.clone(), steps: progs[i].steps });
+                }
+            }
+        }
+    }
     let results = par_map(&progs, |p| {
         let mut r = Report::new("C08", tier);
         check(p, &mut r);
@@ -361,7 +414,7 @@ pub fn run(tier: &str) -> i32 {
     }
     rep.traces_validated = rep.evaluations;
     rep.rule = format!(
-        "(1) one struct of each of 5 member shapes with every subset of its admissible roles (uniform/storage/workgroup/private/push-constant variable, fixed/runtime array element, helper parameter, local, vertex/fragment/compute parameter, vertex/fragment result); (2) pairs of IO-shaped structs with role subsets of size <=2; (3) every nesting DAG on <= {} plain structs x one-or-no role per struct x nesting by member / by array member; (4) IO-shaped structs nested in a plain host struct. Two variables and two fragment entries share each struct. Programs naga rejects are outside the universe (counted in filtered_out). Oracle: reachability reference; observed: multiset of top-level struct names.",
+        "(1) one struct of each of 5 member shapes with every subset of its admissible roles (uniform/storage/workgroup/private/push-constant variable, fixed/runtime array element, helper parameter, local, vertex/fragment/compute parameter, vertex/fragment result); (2) pairs of IO-shaped structs with role subsets of size <=2; (3) every nesting DAG on <= {} plain structs x one-or-no role per struct x nesting by member / by array member; (4) IO-shaped structs nested in a plain host struct; (5) entry-parameter structs shared by 2..3 entries of one stage in every adjacent / non-adjacent pattern. Two variables and two fragment entries share each struct. Programs naga rejects are outside the universe (counted in filtered_out). Oracle: reachability reference; observed: multiset of top-level struct names.",
         if rep.thorough() { 4 } else { 3 }
     );
     let filtered: u64 = rep.filtered_out.values().sum();
